@@ -127,21 +127,22 @@ func modifyUsingTemp(c1, c2, c3 *sqlcheck.Change) (from, to *schema.Table, _ boo
 	// New table layout.
 	add := c1.Changes[0].(*schema.AddTable)
 	prefixed, name := add.T.Name, strings.TrimPrefix(add.T.Name, "new_")
-	add.T.Name = name
 	// Right after "INSERT", the "DROP T" is expected.
 	if !isDropT(c2.Changes[0], name) {
 		return nil, nil, false
 	}
 	drop := c2.Changes[0].(*schema.DropTable)
+	switch {
 	// "RENAME T" is expected after "DROP T".
-	if len(c3.Changes) == 1 && isRenameT(c3.Changes[0], prefixed, name) {
-		return drop.T, add.T, true
-	}
+	case len(c3.Changes) == 1 && isRenameT(c3.Changes[0], prefixed, name):
 	// In case no parser is attached, "RENAME T" will be presented as "DROP T" and "ADD T".
-	if len(c3.Changes) == 2 && isDropT(c3.Changes[0], prefixed) && isAddT(c3.Changes[1], name) {
-		return drop.T, add.T, true
+	case len(c3.Changes) == 2 && isDropT(c3.Changes[0], prefixed) && isAddT(c3.Changes[1], name):
+	default:
+		return nil, nil, false
 	}
-	return nil, nil, false
+	// The added table gets its final name only if the pattern was matched.
+	add.T.Name = name
+	return drop.T, add.T, true
 }
 
 func isAddT(c schema.Change, prefix string) bool {
